@@ -659,7 +659,7 @@ pub fn run(ctx: &Ctx) -> i32 {
         Finish {
             ctx,
             level: "exploration",
-            rule: "own priority1/clockClass/accuracy/variance/priority2 from small domains (classes 6,127,128,248,255), slave-only, 1-3 ports each master-only or not; prior port states reached by a generated prelude (nothing, receipt timeout, earlier BMCA round with one master, P2P double responder => Faulty); per port 0-3 new foreign masters (grandmaster attributes from the same domains, the same grandmaster via different senders, stepsRemoved 0,1,2,3,254, sender identity below/above own) each qualified by two consecutive Announces delivered in a generated global order, re-announcement of the prelude master with changed contents, Announces from the own instance (same segment), BMCA with a generated port permutation. Oracle: independent Figure 33/34/35 implementation + Table 30/33 updates with statime's documented deviations; maximality; order independence (second run with reversed orders). Plus an exhaustive single-candidate lattice. Non-trivial = >= 2 candidates or a prior state other than Listening; distinct by case tuple. Part daemon: the real statime daemon (configured priority1 128, 127, 129 and priority2 128, 127, 129 by worker; D0 is taken from the configuration, the reported defaultDS must agree with it) with two ports between up to two generated masters per segment plus, in half of the cases, the usual parent (priority1 100, class 6); 1-3 grandmasters with attributes from small domains around the daemon's and the parent's values (priority1 50..200, class 6/7/248/255, accuracy, variance, priority2), each sender being a grandmaster itself or 1-3 steps from one, so that one grandmaster may be heard on both segments at different distances; after 2 s of steady announcing the observed port states, parentDS and stepsRemoved must equal what the reference data set comparison and state decision give for the daemon's observed defaultDS and those candidates (a mismatch must persist through 1.5 s more of announcing; ties are not judged). Non-trivial there = >= 1 generated sender.",
+            rule: "own priority1/clockClass/accuracy/variance/priority2 from small domains (classes 6,127,128,248,255), slave-only, 1-3 ports each master-only or not; prior port states reached by a generated prelude (nothing, receipt timeout, earlier BMCA round with one master, P2P double responder => Faulty); per port 0-3 new foreign masters (grandmaster attributes from the same domains, the same grandmaster via different senders, stepsRemoved 0,1,2,3,254, sender identity below/above own) each qualified by two consecutive Announces delivered in a generated global order, re-announcement of the prelude master with changed contents, Announces from the own instance (same segment), BMCA with a generated port permutation. Oracle: independent Figure 33/34/35 implementation + Table 30/33 updates with statime's documented deviations; maximality; order independence (second run with reversed orders). Plus an exhaustive single-candidate lattice. Non-trivial = >= 2 candidates or a prior state other than Listening; distinct by case tuple. Part daemon: the real statime daemon (configured priority1 128, 127, 129 and priority2 128, 127, 129 by worker; D0 is taken from the configuration, the reported defaultDS must agree with it) with two ports between up to two generated masters per segment plus, in half of the cases, the usual parent (priority1 100, class 6); 1-3 grandmasters with attributes from small domains around the daemon's and the parent's values (priority1 50..200, class 6/7/248/255, accuracy, variance, priority2), each sender being a grandmaster itself or 1-3 steps from one, so that one grandmaster may be heard on both segments at different distances; after 2 s of steady announcing the observed port states, parentDS and stepsRemoved must equal what the reference data set comparison and state decision give for the daemon's observed defaultDS and those candidates (a mismatch must persist through 1.5 s more of announcing; ties are not judged); workers 6-7: empty acceptable master list on the first port; a third of the cases start after 3-5 s of total silence; a port reported Slave to the end of the case must not send Announce/Sync from 150 ms after the first such report. Non-trivial there = >= 1 generated sender.",
             assumptions: vec![
                 "genuine ties (Error-1/-2) are skipped and counted".into(),
                 "timePropertiesDS after M1/M2 is not asserted (IEEE leaves the source of the local values to the implementation)".into(),
